@@ -409,6 +409,23 @@ func genWinbox(tier string, yield func(Case) bool) bool {
 			}
 		}
 	}
+	// single-field corruptions of the chunk framing: the type byte of every chunk set to each
+	// other value of interest (the first chunk is typed 0x06, every later one 0xff, nothing else)
+	for _, u := range []string{"admin", strings.Repeat("b", 230), strings.Repeat("c", 222), strings.Repeat("d", 255)} {
+		m := winboxAuth(u, 32, 1)
+		for off, i := 0, 0; off+1 < len(m); off, i = off+2+int(m[off]), i+1 {
+			for _, t := range []byte{0x06, 0xff, 0x00, 0x05, 0x07, 0xfe} {
+				if t == m[off+1] {
+					continue
+				}
+				x := append([]byte(nil), m...)
+				x[off+1] = t
+				if !yield(mk("winbox", "winbox", `{}`, false, x, false, fmt.Sprintf("auth message whose chunk %d carries type %#x", i, t))) {
+					return false
+				}
+			}
+		}
+	}
 	return true
 }
 
